@@ -312,9 +312,9 @@ claim("C06",
 
 # clauses added after the independent seeded changes (DESIGN §8); appended to the level text
 EXTRA = {
- "C20": " Round 2: a confirm for an unknown block is cached on every path; nothing but the operator's file and listed parents puts a block on the blacklist.",
- "C19": " Round 2: the confirm filter and the save of filtered confirms hold chainLock; the pending-write index rules are evaluated here as well.",
- "C17": " Round 2: Hash/Commit answer from hashRoot over the current root or from a memo every content write drops; the value slot of a branch node and a short node's value child are never passed to the recursive hash.",
+ "C20": " Round 2: a confirm for an unknown block is cached on every path; nothing but the operator's file and listed parents puts a block on the blacklist. Round 3: every consumed timer tick re-arms the timer; the pool's existence test and insert share one hold of its mutex (C18.3 evaluated here); cached confirms are merged before every hand-over of a block to InsertBlock, helper or written-out form.",
+ "C19": " Round 2: the confirm filter and the save of filtered confirms hold chainLock; the pending-write index rules are evaluated here as well. Round 3: saveNewBlock records a block in the replay guard before publishing it as the head; RPC account reads go through the canonical (stable, copied) account view only.",
+ "C17": " Round 2: Hash/Commit answer from hashRoot over the current root or from a memo every content write drops; the value slot of a branch node and a short node's value child are never passed to the recursive hash. Round 3: nothing is appended to a slice read from a node's key (the backing array is shared between trie versions).",
  "C12": " Round 2: the equity trie root has a closed writer set and its raw setter is reached only from the EquityRootLog's redo/undo. Round 3: no in-place big.Int mutation on shared receivers; IsValuable compares old and new symmetrically.",
  "C08": " Round 2: an accepted recovery scan returns the scan cursor, not the file size; RunContext.Flush reports success only after the file was replaced, or skips under a dirty flag that every writer of the candidate cache raises; every insert into the pending-write index counts the pending writes of its key. Round 3: the candidate cache cursor after a load comes from the input length; the replay-guard reload clause is evaluated here as well.",
  "C06": " Round 2: SetSingers installs a freshly built list; signing hashes read fields directly or through faithful accessors. Round 3: the C04 clauses (canonical signatures, identity) are evaluated here as well.",
@@ -328,10 +328,10 @@ EXTRA = {
  "C10": " Also: the list ranked at start-up is built only from candidates whose stored isCandidate flag is true. Round 2: every list that becomes a published Top has the provenance of the total order (ranking result, published Top, order-preserving filter/prefix, empty), interprocedurally; no account Put of Save runs after the ranking; needMerge(VotesLog) by partial evaluation. Round 3: LoadTopCandidates reads accounts through Manager.GetAccount; what is put into the candidate cache is flushed or skipped only under a maintained dirty flag.",
  "C11": " Also: the balance a vote transaction weighs is read before the transaction's gas purchase. Round 2: outside the journal every SetVotes is relative to GetVotes of the same account or one of three listed absolute writes. Round 3: the copy-depth premise (own Votes and Profile per account copy) is evaluated here as well.",
  "C13": " Also: miner and verifier read the deputy set of parent height + 1 for round length and rotation and consult the parent's miner only outside the height-1 / first-block-of-term case (input agreement, not arithmetic). Round 2: round length and rotation answer from one cut deputy list (C03.6 evaluated here). Slot arithmetic stays undecided (a seeded change of GetNextMineWindow's arithmetic is not caught). Round 3: miner and verifier use the same term-start predicates; no init-time snapshot of configurable parameters.",
- "C14": " Also: no fast path to success around the fetch the canonical test inspects; custom decoders fill no field from a sibling field. Round 2: custom decoders consume the value they decode (or their type is decoded only where nothing can follow); narrow-typed indices into fixed arrays are in range.",
+ "C14": " Also: no fast path to success around the fetch the canonical test inspects; custom decoders fill no field from a sibling field. Round 2: custom decoders consume the value they decode (or their type is decoded only where nothing can follow); narrow-typed indices into fixed arrays are in range. Round 3: the hexutil/base26 encoders do not narrow an integer on the way from the receiver to the output.",
  "C15": " Also (C15.8): every sub transaction of a decoded box is non-nil when GetBox succeeds and every reader gets its box from GetBox; results of network functions with a `return nil` path are nil-tested by every caller before use. Round 2: the crash-site inventory has a per-(package, kind) budget for sites that move inside their package. Round 2: integer divisions in the network closure are zero-tested or inventoried with the invariant that keeps the divisor from zero; the ordering premise (signer and height checks heeded before the miner-slot check) is an obligation. Round 3: decodes into interface{} are guarded by an empty-only size test.",
  "C16": " Also (C16.7): SetCallCode's hash identifies the installed code (key of the jump-destination cache). Round 2: a stipend added to the nested frame's gas is paid by the value-transfer surcharge of the opcode's gas function. Round 3: the integer pool recycles only integers the frame owns.",
- "C18": " Also: DelTxs on a fork switch receives the unfiltered new-fork list. Round 2: index inserts happen under the same hold of the pool mutex as the existence test; every indexer expands boxes.",
+ "C18": " Also: DelTxs on a fork switch receives the unfiltered new-fork list. Round 2: index inserts happen under the same hold of the pool mutex as the existence test; every indexer expands boxes. Round 3: the slot-indexed fields of the pool are replaced together; delTx expands a box whatever its own index lookup says.",
 }
 for _pid, _t in EXTRA.items():
     if _pid in CLAIMED:
